@@ -382,8 +382,10 @@ impl<'a> Engine<'a> {
         // idle window just before (baseline)
         let g0 = self.hub.lock().unwrap().genuine_to[victim];
         let a0 = crate::alloc_count::allocated();
+        let _ = crate::alloc_count::take_max_single();
         tokio::time::sleep(self.win).await;
         let a1 = crate::alloc_count::allocated();
+        let idle_single = crate::alloc_count::take_max_single();
         let g1 = self.hub.lock().unwrap().genuine_to[victim];
         let p0: Vec<u64> = self.probes.iter().map(|(_, f)| f()).collect();
         let rx0 = self.rx_counters[victim].as_ref().map(|f| f());
@@ -396,6 +398,7 @@ impl<'a> Engine<'a> {
         tokio::time::sleep(self.win).await;
         let wall = w0.elapsed();
         let a2 = crate::alloc_count::allocated();
+        let input_single = crate::alloc_count::take_max_single();
         let g2 = self.hub.lock().unwrap().genuine_to[victim];
         self.delivered += 1;
         self.delivered_in_phase += 1;
@@ -435,7 +438,19 @@ impl<'a> Engine<'a> {
             ctx.stat("escape.alloc_window_had_panic", 1);
         } else {
             ctx.sh.lock().unwrap().stat_max("alloc.max_excess_per_input", used);
-            if used > limit {
+            for (name, v) in [("input", input_single), ("idle", idle_single)] {
+                for (lbl, th) in [("64k", 64u64 << 10), ("256k", 256 << 10), ("1m", 1 << 20), ("4m", 4 << 20)] {
+                    if v > th {
+                        ctx.stat(&format!("alloc.single_request_gt_{lbl}.{name}_window"), 1);
+                    }
+                }
+            }
+            if input_single > limit && input_single > 2 * idle_single {
+                // One request larger than the whole allowance: no noise argument applies to a single allocation (the idle
+                // window of the same length just before saw nothing comparable), so this needs no second measurement -
+                // which a buffer that is sized once from an attacker-controlled field and then kept would escape.
+                ctx.violate("C07.alloc", format!("a single allocation request of {input_single} bytes (allowance for the whole input: 64*len + 64 KiB = {limit} bytes; largest request in the idle window just before: {idle_single}) was made while one hostile input of {} bytes was processed; input: {note}", inp.bytes.len()));
+            } else if used > limit {
                 // The window may have contained work of the endpoint's own (timers, handshake steps) that the idle window
                 // did not: the same input is delivered once more with a fresh idle window, and only an excess that shows
                 // again is attributed to the input.
